@@ -411,6 +411,7 @@ package syncer
 //@   assert after store keysSeen: every_key_in_the_unit_slot: slotMode.forceSlot == nil && !slotMode.allowCrossSlot ==> keySlot == pinned
 //@   ensures unit_slot_is_the_pinned_slot: result1 == nil ==> result0 != nil && result0.Slot == pinned && pinned >= 0
 //@   ensures refused_units_send_nothing: result1 != nil ==> result0 == nil
+//@   ensures unit_carries_exactly_the_given_commands [C13]: result1 == nil ==> result0 != nil && len(result0.Commands) == len(cmds) && (forall i int :: 0 <= i && i < len(cmds) ==> result0.Commands[i] == cmds[i])
 //@   loop 1:
 //@     invariant pinned_once: (slotKnown ==> slot == pinned && pinned >= 0) && (!slotKnown ==> pinned == 0 - 1) && keysSeen >= 0
 //@   loop 2:
@@ -544,3 +545,104 @@ package syncer
 //@   properties C14
 //@   replay syncer_bisyncStartPoint
 //@   modifies heap, savedFrontierSeq, savedFrontierOk, bLen, bFirst, bLast, bCpPuts, bCp, bCpPos, tCpHigh, cpArmed, startSeq, startPinned, curDb, cpDb
+
+// ---- bidirectional sync: what is suppressed as the tool's own traffic (C13) ---------------
+// Only the reserved bookkeeping namespace decides: a command is dropped as bookkeeping only
+// if one of its KEY arguments lies in the namespace (DEL/UNLINK: every argument is a key;
+// every other command the tool writes: the first argument), a transaction is dropped as
+// mirrored only if its first command is a SET of a marker key (which lies in the namespace).
+
+// SpecHasPrefix is strings.HasPrefix.
+func SpecHasPrefix(s string, p string) bool {
+	return len(s) >= len(p) && s[:len(p)] == p
+}
+
+// SpecNsKey: the reserved bookkeeping namespace of the statement.
+func SpecNsKey(key string) bool {
+	return SpecHasPrefix(key, "redis-gunyu-bisync:") || SpecHasPrefix(key, "redis-gunyu-checkpoint")
+}
+
+// SpecLower is strings.ToLower; SpecContains is strings.Contains (uninterpreted).
+func SpecLower(s string) string { return s }
+
+func SpecContains(s string, sub string) bool { return false }
+
+//@ spec SpecLower abstract
+//@ spec SpecContains abstract
+
+//@ func strings.HasPrefix(s, prefix) (r)
+//@   trusted library contract (pure)
+//@   modifies nothing
+//@   ensures def: r == SpecHasPrefix(s, prefix)
+//@ func strings.ToLower(s) (r)
+//@   trusted library contract (pure), lower-casing uninterpreted
+//@   modifies nothing
+//@   ensures def: r == SpecLower(s)
+//@ func strings.Contains(s, substr) (r)
+//@   trusted library contract (pure), uninterpreted
+//@   modifies nothing
+//@   ensures def: r == SpecContains(s, substr)
+
+//@ func isBisyncNamespaceKey
+//@   arith int
+//@   properties C13
+//@   modifies nothing
+//@   ensures reserved_namespace: result == SpecNsKey(key)
+
+//@ pred delLike(c string): SpecLower(c) == "del" || SpecLower(c) == "unlink"
+
+//@ func touchesBisyncNamespace
+//@   arith int
+//@   properties C13
+//@   replay syncer_bisyncNamespace
+//@   modifies nothing
+//@   ensures foreign_values_never_suppress: result ==> len(cmd.Args) > 0 && (SpecNsKey(string(cmd.Args[0])) || (delLike(cmd.Cmd) && (exists i int :: 0 <= i && i < len(cmd.Args) && SpecNsKey(string(cmd.Args[i])))))
+//@   ensures bookkeeping_key_recognised: len(cmd.Args) > 0 && SpecNsKey(string(cmd.Args[0])) ==> result
+//@   ensures bookkeeping_delete_recognised: delLike(cmd.Cmd) && (exists i int :: 0 <= i && i < len(cmd.Args) && SpecNsKey(string(cmd.Args[i]))) ==> result
+//@   loop 1:
+//@     invariant none_so_far: 0 - 1 <= rangeindex && rangeindex < len(cmd.Args) && delLike(cmd.Cmd) && (forall j int :: 0 <= j && j <= rangeindex ==> !SpecNsKey(string(cmd.Args[j])))
+
+//@ func isBisyncControlCommand
+//@   arith int
+//@   properties C13
+//@   modifies nothing
+//@   ensures same_as_namespace_test: result ==> len(cmd.Args) > 0 && (SpecNsKey(string(cmd.Args[0])) || (delLike(cmd.Cmd) && (exists i int :: 0 <= i && i < len(cmd.Args) && SpecNsKey(string(cmd.Args[i])))))
+//@   ensures bookkeeping_key_recognised: len(cmd.Args) > 0 && SpecNsKey(string(cmd.Args[0])) ==> result
+
+//@ func checkpoint.IsBisyncMarkerKey(key) (r)
+//@   trusted marker keys are "redis-gunyu-bisync:<name>:marker:{<tag>}" (prefix test + uninterpreted containment)
+//@   modifies nothing
+//@   ensures def: r == (SpecHasPrefix(key, "redis-gunyu-bisync:") && SpecContains(key, ":marker:{"))
+
+//@ func isBisyncMarkerCommand
+//@   arith int
+//@   properties C13
+//@   modifies nothing
+//@   ensures marker_is_a_namespace_set: result <==> SpecLower(cmd.Cmd) == "set" && len(cmd.Args) >= 2 && SpecHasPrefix(string(cmd.Args[0]), "redis-gunyu-bisync:") && SpecContains(string(cmd.Args[0]), ":marker:{")
+
+//@ func isBisyncMirroredTransaction
+//@   arith int
+//@   properties C13
+//@   modifies nothing
+//@   ensures foreign_transaction_never_suppressed: result ==> len(cmds) > 0 && len(cmds[0].Args) >= 2 && SpecNsKey(string(cmds[0].Args[0]))
+//@   ensures mirrored_recognised: len(cmds) > 0 && SpecLower(cmds[0].Cmd) == "set" && len(cmds[0].Args) >= 2 && SpecHasPrefix(string(cmds[0].Args[0]), "redis-gunyu-bisync:") && SpecContains(string(cmds[0].Args[0]), ":marker:{") ==> result
+
+// ---- bidirectional sync: the replay-unit parser loses no foreign command (C13) -----------
+//   accepted     commands that passed the output filters and became a bisyncAofCommand
+//   emitted      commands handed to the sender inside replay units
+//   bookkeeping  commands dropped because the namespace tests above said "the tool's own"
+//@ func RedisOutput.parseAofReplayUnits
+//@   arith int
+//@   properties C13
+//@   ghost var accepted mathint = 0
+//@   ghost var emitted mathint = 0
+//@   ghost var bookkeeping mathint = 0
+//@   requires nonnil: ro != nil && reader != nil && ro.outFilter != nil
+//@   modifies heap, pos, unread, accepted, emitted, bookkeeping, pinned
+//@   set accepted = accepted + 1 after call makeCmd
+//@   set emitted = emitted + len(unit.Commands) at call emitUnit
+//@   set bookkeeping = bookkeeping + ite(result, 1, 0) after call isBisyncControlCommand
+//@   set bookkeeping = bookkeeping + ite(result, len(cmds), 0) after call isBisyncMirroredTransaction
+//@   loop 1:
+//@     invariant decoder: decoder != nil && decoder.r != nil && decoder.offset >= 0
+//@     invariant every_accepted_command_is_emitted_or_bookkeeping: accepted == emitted + bookkeeping + ite(inTxn, len(txnCommands), 0)
